@@ -508,14 +508,28 @@ Qed.
 Definition is_cuid (i : citem) : bool := match i with CUid _ => true | _ => false end.
 Definition is_fuid (i : fitem) : bool := match i with FUid _ => true | _ => false end.
 
-Lemma uid_route_const : forall items count uid, existsb is_cuid items = false ->
-  uid_at_routing items count uid = uid.
+Lemma uid_route_const : forall items count uid h, existsb is_cuid items = false ->
+  uid_at_routing items count uid h = uid.
 Proof.
-  induction items as [|i items IH]; intros count uid H; [reflexivity|].
+  induction items as [|i items IH]; intros count uid h H; [reflexivity|].
   cbn [existsb] in H. apply orb_false_iff in H as [Hi H].
   cbn [uid_at_routing].
   assert (E : match i with CUid n => n | _ => uid end = uid) by (destruct i; try reflexivity; discriminate Hi).
-  rewrite E. destruct (carries_literal i || Nat.ltb 32 (S count)); [reflexivity|apply IH; exact H].
+  rewrite E. destruct (h || carries_literal i || Nat.ltb 32 (S count)).
+  - destruct (uid =? 0); [apply IH; exact H|reflexivity].
+  - apply IH; exact H.
+Qed.
+
+(* items before the UID do not decide the routing: they are handed over or held back *)
+Lemma uid_route_skip : forall pre l count h, existsb is_cuid pre = false ->
+  exists count' h', uid_at_routing (pre ++ l) count 0 h = uid_at_routing l count' 0 h'.
+Proof.
+  induction pre as [|i pre IH]; intros l count h H; [exists count, h; reflexivity|].
+  cbn [existsb] in H. apply orb_false_iff in H as [Hi H].
+  cbn [app uid_at_routing].
+  assert (E : match i with CUid n => n | _ => 0 end = 0) by (destruct i; try reflexivity; discriminate Hi).
+  rewrite E. change (0 =? 0) with true. cbv iota.
+  destruct (h || carries_literal i || Nat.ltb 32 (S count)); apply IH; exact H.
 Qed.
 
 Lemma norm_items_no_cuid : forall nonext extd rest, existsb is_fuid rest = false ->
@@ -529,16 +543,36 @@ Proof.
   cbn [norm_item]. destruct nonext, extd; reflexivity.
 Qed.
 
-Lemma fetch_key : forall nonext extd uid seq items k, msg_key uid (seq, items) = Some k ->
-  (if uid then uid_at_routing (norm_items nonext extd items) 0 0 else seq) = k.
+Lemma norm_item_no_cuid : forall nonext extd i, is_fuid i = false ->
+  existsb is_cuid (norm_item nonext extd i) = false.
 Proof.
-  intros nonext extd uid seq items k H. unfold msg_key in H. cbn [fst snd] in H.
+  intros nonext extd i H. destruct i; try reflexivity; [discriminate H|].
+  cbn [norm_item]. destruct nonext, extd; reflexivity.
+Qed.
+
+Lemma uid_route_found : forall nonext extd items count h u, the_uid items = Some u -> u <> 0 ->
+  uid_at_routing (norm_items nonext extd items) count 0 h = u.
+Proof.
+  induction items as [|i items IH]; intros count h u H Hu; [discriminate H|].
+  unfold norm_items. cbn [flat_map]. fold (norm_items nonext extd items).
+  destruct (is_fuid i) eqn:Ei.
+  - destruct i; try discriminate Ei. cbn [the_uid] in H. fold is_fuid in H.
+    destruct (existsb is_fuid items) eqn:E; [discriminate H|]. inversion H; subst u.
+    cbn [norm_item app uid_at_routing]. apply N.eqb_neq in Hu. rewrite Hu.
+    destruct (h || carries_literal (CUid n) || Nat.ltb 32 (S count)); [reflexivity|].
+    apply uid_route_const. apply norm_items_no_cuid. exact E.
+  - assert (H' : the_uid items = Some u) by (destruct i; try exact H; discriminate Ei).
+    destruct (uid_route_skip (norm_item nonext extd i) (norm_items nonext extd items) count h
+                (norm_item_no_cuid nonext extd i Ei)) as (count' & h' & ->).
+    apply IH; assumption.
+Qed.
+
+Lemma fetch_key : forall nonext extd uid seq items k, msg_key uid (seq, items) = Some k -> k <> 0 ->
+  (if uid then uid_at_routing (norm_items nonext extd items) 0 0 false else seq) = k.
+Proof.
+  intros nonext extd uid seq items k H Hk. unfold msg_key in H. cbn [fst snd] in H.
   destruct uid; [|inversion H; reflexivity].
-  destruct items as [|[u| | | | | | | | ] rest]; try discriminate H.
-  fold is_fuid in H. destruct (existsb is_fuid rest) eqn:E; [discriminate H|]. inversion H; subst u.
-  unfold norm_items. cbn [flat_map norm_item app]. fold (norm_items nonext extd rest).
-  cbn [uid_at_routing carries_literal orb]. change (Nat.ltb 32 1) with false. cbv iota.
-  apply uid_route_const. apply norm_items_no_cuid. exact E.
+  apply uid_route_found; assumption.
 Qed.
 
 Lemma keys_of_cons : forall uid m msgs, keys_of uid (m :: msgs) =
@@ -546,7 +580,7 @@ Lemma keys_of_cons : forall uid m msgs, keys_of uid (m :: msgs) =
 Proof. reflexivity. Qed.
 
 Lemma fetch_apply : forall tag (uid : bool) req recv acc (seq : N) items k recv',
-  (if uid then uid_at_routing items 0 0 else seq) = k -> k <> 0 ->
+  (if uid then uid_at_routing items 0 0 false else seq) = k -> k <> 0 ->
   recv_num req recv k = Some (true, recv') ->
   apply_untagged tag (PFetch uid req recv acc) (RFetch seq items) =
   PFetch uid req recv' (acc ++ [(seq, items)]).
@@ -610,7 +644,7 @@ Proof.
       * eapply fetch_line; [exact Hx|exact (xo_idate_plain x Hx)|exact Hs0|exact Hs32|exact Hit|exact H1].
       * exact (fetch_line_nonnil _ _ _ _ _ _ _ H1).
       * reflexivity.
-      * rewrite (fetch_apply tag uid req recv acc seq _ k recv1 (fetch_key nonext extd uid seq items k Ek) Hk0' Hr1).
+      * rewrite (fetch_apply tag uid req recv acc seq _ k recv1 (fetch_key nonext extd uid seq items k Ek Hk0') Hk0' Hr1).
         apply Hrec. cbn [norm_msgs map fst snd] in H. rewrite <- app_assoc. exact H.
 Qed.
 
